@@ -278,6 +278,9 @@ Definition n_Float : name := s2b "Float".
 Definition n_String : name := s2b "String".
 Definition n_Boolean : name := s2b "Boolean".
 Definition n_ID : name := s2b "ID".
+(** schema.BuiltInTypes, by name *)
+Definition is_builtin_name (n : name) : bool :=
+  bytes_eqb n n_Int || bytes_eqb n n_Float || bytes_eqb n n_String || bytes_eqb n n_Boolean || bytes_eqb n n_ID.
 Definition known_locations : list name :=
   map s2b ["QUERY"; "MUTATION"; "SUBSCRIPTION"; "FIELD"; "FRAGMENT_DEFINITION"; "FRAGMENT_SPREAD";
            "INLINE_FRAGMENT"; "SCHEMA"; "SCALAR"; "OBJECT"; "FIELD_DEFINITION"; "ARGUMENT_DEFINITION";
